@@ -193,6 +193,26 @@ class Engine(Executor):
             return [(s, s.alloc(b))]
         if isinstance(v, PyTuple):
             return [(s, s.alloc(ListBox(v.items)))]
+        if isinstance(v, GenV):
+            # list(<generator by contract>): the generator runs to its end here (pre-conditions checked, the exceptions
+            # its contract allows may surface, its frame applies); the result holds as many abstract elements as it yielded
+            out = []
+            for (s2, r) in self.apply_contract(v.contract, v.fi, v.env[0], v.env[1], s, v.node, from_gen=True):
+                if is_exc(r):
+                    out.append((s2, r))
+                    continue
+                self.loop_count += 1
+                n = z3.Int("gen_len!G%d" % self.loop_count)
+                s2.assume(n >= 0)
+                ann = v.contract.opts.get("yields")
+                box = AbsBox("list", n, ast.parse(ann, mode="eval").body if isinstance(ann, str) else ann)
+                if s2.ghost.get("events"):
+                    s2.ghost = dict(s2.ghost)
+                    gc = dict(s2.ghost.get("gen_counts", {}))
+                    gc[len(s2.ghost["events"]) - 1] = n
+                    s2.ghost["gen_counts"] = gc
+                out.append((s2, s2.alloc(box)))
+            return out
         if isinstance(v, Z) and not self.def_str(v, s):
             # list(<heap iterable>): a new list of as many elements (their values are not carried: abstract elements)
             t = v.t
